@@ -13,7 +13,7 @@ Theorem C01_validator_sound : forall b fuel ds qs k,
   forall (env : var -> Z) (t : nat), (k < t)%nat ->
   forall q, In q qs ->
     observe (zalg env) b (run (zalg env) b t) (q_obs ds q)
-    = nth (q_decl q) (den_prog (zalg env) ds) 0%Z.
+    = nth (q_decl q) (den_prog (zalg env) (b_univ b) ds) 0%Z.
 Proof. exact check_c01_sound. Qed.
 Print Assumptions C01_validator_sound.
 
@@ -29,9 +29,9 @@ Proof. exact talg_hom. Qed.
 Print Assumptions C01_normaliser_sound.
 
 (* the symbolic and the concrete meaning of a source program agree under every valuation *)
-Theorem C01_denote_all_inputs : forall env ds,
-  map (eval env) (den_prog talg ds) = den_prog (zalg env) ds.
-Proof. intros env ds. exact (den_prog_hom talg (zalg env) (eval env) (talg_hom env) ds). Qed.
+Theorem C01_denote_all_inputs : forall env U ds,
+  map (eval env) (den_prog talg U ds) = den_prog (zalg env) U ds.
+Proof. intros env U ds. exact (den_prog_hom talg (zalg env) (eval env) (talg_hom env) U ds). Qed.
 Print Assumptions C01_denote_all_inputs.
 
 (* non-vacuity: a two-combinator blueprint for  Signal b = a * 3 + 2  passes the validator *)
